@@ -582,6 +582,24 @@ def _toml_key(vals, v):
     return cases
 
 
+@adapter("radix_value")
+def _radix_value(vals, v):
+    """the integer from the counterexample (first 16-byte value) and a spread of rounding-tie shaped integers of 17..32
+    hex digits: std.parseHex must return float(int)"""
+    ns = []
+    try:
+        ns.append(u(vals, 0))
+    except Exception:
+        pass
+    ns += [2 ** 64 + 2 ** 11 + 1, 2 ** 64 + 2 ** 11, 2 ** 64 + 3 * 2 ** 11 + 1, 2 ** 80 + 2 ** 27 + 1, 2 ** 100 + 2 ** 47 + 1, 2 ** 127 + 2 ** 74 + 1, 16 ** 31 + 2 ** 71 + 1]
+    cases = []
+    for n in ns:
+        if n <= 0:
+            continue
+        cases.append({"source": 'std.parseHex("%x") == %d' % (n, int(float(n))), "oracle": {"oracle": "stdout_equals", "value": "true\n"}})
+    return cases
+
+
 @adapter("crop")
 def _crop(vals, v):
     """every small crop size (and the counterexample's, clipped) on a run-time error with a 12-frame trace"""
